@@ -163,6 +163,9 @@ class EFLRItem:
         if isinstance(getattr(self, key, None), Attribute):
             raise RuntimeError(f"Cannot set DLIS Attribute '{key}'. Did you mean setting '{key}.value' instead?")
 
+        if key in ('name', '_origin_reference', '_copy_number'):
+            self.__dict__.pop('obname', None)  # the cached OBNAME bytes depend on these; recompute when next needed
+
         return super().__setattr__(key, value)
 
     @cached_property
